@@ -505,6 +505,8 @@ def check_C19(tier, ev):
     # (no -coverage: TLC's coverage instrumentation does not terminate on the recursive evaluator of Chain)
     res, rep = mc_and_replay(ev, "mc/MC_Twin.tla", cfg, "twin", 600, [], emitting=[], coverage=False)
     d1 = rep["extra"].get("transcript_digest")
+    # the same for a history with the real staking and distribution keepers composed in
+    mc_and_replay(ev, "mc/MC_Twin.tla", f"mc/MC_Twin_stake_{tier}.cfg", "twin", 600, [], emitting=[], coverage=False)
     # second process, later: same schedules, same transcripts?
     c = emit_cfg(cfg, os.path.basename(cfg)[:-4] + "_emit.cfg")
     res2, rep2 = run_tlc("mc/MC_Twin.tla", c, 600, "C19-twin-second", workers=1, coverage=False,
